@@ -8,8 +8,8 @@ Local Open Scope Z_scope.
 (* one statement, one command: load_from_config keeps sections and statements one to one and in order *)
 Theorem exactly_one_command :
   (forall fs cf l, load_config fs cf = Ok l ->
-     Forall2 (fun sec cmds => List.length cmds = List.length (snd sec)) (cf_sections cf) l) /\
+     Forall2 (fun sec cmds => List.length cmds = List.length (cs_cmds sec)) (cf_sections cf) l) /\
   (forall p cf, parse_program p = Ok cf ->
-     Forall2 (fun s sec => List.length (snd sec) = List.length (snd s)) (p_sections p) (cf_sections cf)).
+     Forall2 (fun s sec => List.length (cs_cmds sec) = List.length (sec_stmts s)) (p_sections p) (cf_sections cf)).
 Proof. exact BdProofs.exactly_one_command. Qed.
 Print Assumptions exactly_one_command.
